@@ -274,6 +274,62 @@ func c02MapOrder(c *caseCtx) {
 	}
 }
 
+// defaults: whatever a request leaves unsaid (draw policy, ordering, reference strategy, level function options) is
+// decided the same way by every process start - not by the iteration order of a registry built at start-up
+func c02Defaults(c *caseCtx) {
+	N, P := 70, 10
+	bodies := make([][]byte, N)
+	corpus := make([]*genReq, N)
+	for i := range corpus {
+		g := genRequest(c.rng, genOpts{method: methods[i%len(methods)], profile: profTies, nBiases: i % 3, minCrit: 2, maxCrit: 4, minAlt: 3, maxAlt: 6, allFire: true})
+		stripOptional(g)
+		corpus[i], bodies[i] = g, g.body()
+	}
+	type obs struct {
+		status int
+		body   []byte
+	}
+	var ref []obs
+	for p := 0; p < P; p++ {
+		s, err := startServer()
+		if err != nil {
+			c.inconclusive("service did not start: " + err.Error())
+			return
+		}
+		c.count("processes_started", 1)
+		got := make([]obs, N)
+		for i := range bodies {
+			r := s.post(bodies[i])
+			c.count("evaluations", 1)
+			if r.err != nil {
+				tail := s.logTail(600)
+				s.stop()
+				c.violate("no-answer", fmt.Sprintf("request got no answer from process %d: %v", p, r.err), M{"request": corpus[i].M, "service_output": tail})
+				return
+			}
+			got[i] = obs{r.status, bytes.TrimSpace(r.body)}
+		}
+		s.stop()
+		if ref == nil {
+			ref = got
+			continue
+		}
+		for i := range got {
+			if ref[i].status != got[i].status {
+				c.violate("verdict-not-repeatable", fmt.Sprintf("a request relying on defaults gets status %d from one process start and %d from another", ref[i].status, got[i].status), M{"request": corpus[i].M})
+				return
+			}
+			if got[i].status == 200 && !bytes.Equal(ref[i].body, got[i].body) {
+				c.violate("bytes-not-repeatable", "a request relying on defaults gets different bytes from two process starts", M{"request": corpus[i].M, "a": string(ref[i].body), "b": string(got[i].body)})
+				return
+			}
+		}
+	}
+	c.count("default_requests_compared_across_starts", N)
+	c.count("nontrivial", N)
+	c.distinct(fmt.Sprintf("defaults|%d", c.idx))
+}
+
 // large problems: implementations may switch strategy (batching, worker goroutines) above a size threshold
 func c02Large(c *caseCtx) {
 	method := []string{"weightedSum", "owa", "majorityHeuristic", "satisfactionHeuristic", "aspectEliminationHeuristic", "electreIII"}[c.idx%6]
@@ -317,6 +373,8 @@ func init() {
 				note: ">=3 criteria with weights / k in 0.05 steps, integer performances and thresholds, 8 (thorough 16) repetitions each: a total summed in map order differs in the last bit between calls and flips comparisons that sit exactly on a boundary"},
 			{name: "large", n: tierN(48, 600), unit: 4, run: c02Large, floors: map[string]int64{"large_repeated": 30},
 				note: "requests with 256..755 alternatives (ELECTRE 130..189) and 1..3 fired biases, 3 repetitions each"},
+			{name: "defaults", n: tierN(2, 6), unit: 1, run: c02Defaults, floors: map[string]int64{"default_requests_compared_across_starts": 140},
+				note: "70 tie-heavy requests that leave every optional choice (draw policy, ordering, reference strategy) to the defaults, sent to 10 fresh process starts each"},
 			{name: "processes", n: tierN(3, 12), unit: 1, run: c02Processes, floors: map[string]int64{"processes_started": 9, "requests_compared_across_processes": 700}},
 		},
 	})
